@@ -156,7 +156,7 @@ impl Property for C24 {
 
     fn runs(&self, tier: Tier) -> u64 {
         match tier {
-            Tier::Quick => 96 * 3,
+            Tier::Quick => 96 * 8,
             Tier::Thorough => 96 * 300,
         }
     }
